@@ -21,6 +21,9 @@ pub enum Op {
     Capture { c: u8, q: String },
     /// the README idiom: query once, then write through every returned path in order
     UpdateAll { c: u8, q: String, values: Vec<Value> },
+    /// `doc.reference_mut(path)` and, through the handle, the container grows: an array gets `value`
+    /// pushed, an object gets a new member holding it, anything else is replaced by it
+    Grow { c: u8, path: String, value: Value },
 }
 
 #[derive(Clone, Debug, Serialize, Deserialize)]
@@ -471,7 +474,21 @@ impl<'f> Exec<'f> {
         r.map(|(c, d)| self.viol(i, c, path, None, d))
     }
 
-    fn write(&mut self, i: usize, path: &str, value: &Value, q: Option<&str>) -> Option<Viol> {
+    fn write(&mut self, i: usize, path: &str, value: &Value, q: Option<&str>, grow: bool) -> Option<Viol> {
+        // what the caller does with the handle
+        let apply = |node: &mut Value| {
+            if grow {
+                match node {
+                    Value::Array(a) => a.push(value.clone()),
+                    Value::Object(o) => {
+                        o.insert(format!("grown{}", i), value.clone());
+                    }
+                    other => *other = value.clone(),
+                }
+            } else {
+                *node = value.clone();
+            }
+        };
         let Some(loc) = npath::parse(path) else {
             // not a Normalized Path: the statement promises nothing; do not write through it
             let _ = self.doc.reference(path.to_string());
@@ -488,18 +505,18 @@ impl<'f> Exec<'f> {
                     if (g as *const Value) != w {
                         res = Some(("write-wrong-node", "reference_mut returned a handle to a different node".into()));
                     }
-                    *g = value.clone();
+                    apply(g);
                 }
                 (Some(_), None) => res = Some(("write-missing", "reference_mut returned None; the node exists".into())),
                 (None, Some(g)) => {
                     res = Some(("write-phantom", format!("no such location; reference_mut returned a handle (to value {})", g)));
-                    *g = value.clone();
+                    apply(g);
                 }
                 (None, None) => {}
             }
         }
         if want.is_some() {
-            *npath::walk_mut(&mut self.model, &loc).unwrap() = value.clone();
+            apply(npath::walk_mut(&mut self.model, &loc).unwrap());
             self.stats.hits += 1;
             self.stats.writes_applied += 1;
             let mut st = std::mem::take(&mut self.stats);
@@ -569,7 +586,7 @@ impl<'f> Exec<'f> {
     pub fn step(&mut self, i: usize, op: &Op) -> StepOut {
         if self.threads {
             let c = match op {
-                Op::Read { c, .. } | Op::Write { c, .. } | Op::Capture { c, .. } | Op::UpdateAll { c, .. } => *c as usize,
+                Op::Read { c, .. } | Op::Write { c, .. } | Op::Grow { c, .. } | Op::Capture { c, .. } | Op::UpdateAll { c, .. } => *c as usize,
             };
             let me = SendPtr(self as *mut Exec<'f>);
             let opp = SendPtr(op as *const Op as *mut Op);
@@ -591,7 +608,7 @@ impl<'f> Exec<'f> {
             Ok(o) => o,
             Err(_) => match op {
                 Op::Read { path, .. } => StepOut { viol: Some(self.viol(i, "read-panic", path, None, "reference panicked".into())), reported: vec![] },
-                Op::Write { path, .. } => StepOut { viol: Some(self.viol(i, "write-panic", path, None, "reference_mut (or the write through it) panicked".into())), reported: vec![] },
+                Op::Write { path, .. } | Op::Grow { path, .. } => StepOut { viol: Some(self.viol(i, "write-panic", path, None, "reference_mut (or the write through it) panicked".into())), reported: vec![] },
                 Op::Capture { .. } | Op::UpdateAll { .. } => {
                     self.stats.query_errors += 1;
                     // the document may be half-written after a panic inside UpdateAll: re-align the model
@@ -610,7 +627,11 @@ impl<'f> Exec<'f> {
             }
             Op::Write { path, value, .. } => {
                 self.stats.bump("write");
-                StepOut { viol: self.write(i, path, value, None), reported: vec![] }
+                StepOut { viol: self.write(i, path, value, None, false), reported: vec![] }
+            }
+            Op::Grow { path, value, .. } => {
+                self.stats.bump("grow");
+                StepOut { viol: self.write(i, path, value, None, true), reported: vec![] }
             }
             Op::Capture { q, .. } => {
                 self.stats.bump("capture");
@@ -629,7 +650,7 @@ impl<'f> Exec<'f> {
                         continue; // echo already failed for this path (known finding); nothing to write through
                     }
                     let val = if values.is_empty() { Value::Null } else { values[k % values.len()].clone() };
-                    if let Some(v) = self.write(i, path, &val, Some(q)) {
+                    if let Some(v) = self.write(i, path, &val, Some(q), false) {
                         return StepOut { viol: Some(v), reported };
                     }
                 }
@@ -792,8 +813,8 @@ fn gen_query(rng: &mut Rng, model: &Value, names: &[String]) -> String {
                 let n = rng.pick(&pairs).0.clone();
                 format!("!{}", member(rng, &n))
             }
-            5 => "@[0]".to_string(),
-            6 => "length(@) > 1".to_string(),
+            5 => (*rng.pick(&["@[0]", "@[?@[?@]]", "@[?@[?@[?@]]]", "@[0,'a']"])).to_string(),
+            6 => (*rng.pick(&["length(@) > 1", "count(@.*) == count($.*)", "length(@) == length($)", "value(@.a) == value(@.t)", "count(@..*) >= count(@.*)", "value(@[0]) != value(@[-1])"])).to_string(),
             _ => (*rng.pick(&["@", "@ > 0", "@ != null", "count(@.*) > 0"])).to_string(),
         }
     };
@@ -908,7 +929,7 @@ fn gen_query(rng: &mut Rng, model: &Value, names: &[String]) -> String {
             let (sa, sb) = (name_sel(rng, &a), name_sel(rng, &b));
             q.push_str(&format!("[{},{}]", sa, sb));
         }
-        _ => q.push_str(*rng.pick(&["[0,1]", "[1,0]", "[0,0]", "[-1,0]"])),
+        _ => q.push_str(*rng.pick(&["[0,1]", "[1,0]", "[0,0]", "[-1,0]", "[0,'a']", "['a',0,'t']", "[0:0]", "[0:0,0]", "[::100]", "[1:1:-1]", "[-1,-1,0]"])),
     }
     }
     q
@@ -1252,7 +1273,11 @@ pub fn run(run_seed: u64, findings: &[Finding]) -> RunOut {
                 if choice == 3 {
                     Op::Read { c: c as u8, path: h.path.clone() }
                 } else {
-                    Op::Write { c: c as u8, path: h.path.clone(), value: gen_value(&mut rng, &mut marker) }
+                    if rng.chance(1, 5) {
+                        Op::Grow { c: c as u8, path: h.path.clone(), value: gen_value(&mut rng, &mut marker) }
+                    } else {
+                        Op::Write { c: c as u8, path: h.path.clone(), value: gen_value(&mut rng, &mut marker) }
+                    }
                 }
             }
             _ => {
@@ -1265,9 +1290,9 @@ pub fn run(run_seed: u64, findings: &[Finding]) -> RunOut {
             }
         };
         let i = ops.len();
-        let before = if matches!(op, Op::Write { .. } | Op::UpdateAll { .. }) { Some(ex.model.clone()) } else { None };
+        let before = if matches!(op, Op::Write { .. } | Op::Grow { .. } | Op::UpdateAll { .. }) { Some(ex.model.clone()) } else { None };
         let out = ex.step(i, &op);
-        if let Op::Write { path, .. } = &op {
+        if let Op::Write { path, .. } | Op::Grow { path, .. } = &op {
             if let Some(l) = npath::parse(path) {
                 if before.as_ref() != Some(&ex.model) {
                     writes.push((l, i));
